@@ -18,6 +18,10 @@ theorem watch_loop_is_the_step_machine :
       ["load", "if load-error: sleep continue", "if unchanged: sleep continue", "make:loadCertificates",
        "if make-error: sleep continue", "send", "remember", "if once: return"] := by decide
 
+/-- the one send of `watch` hands the certificates made from the material just loaded (also when the poll lives
+in a helper) to the channel parameter — `c11.watch`, `c11.source` (published sets, in order) -/
+theorem send_hands_on_the_made_certificates : watchSendsMadeCertsOnChannelParam = true := by decide
+
 /-- `refresh` raised to `time.Second` before the loop, `once := refresh <= 0` evaluated before the floor —
 `c11.watch_gap` (gaps ≥ max(refresh, 1 s) for refresh ∈ {0, −5, 1, 700, 1000, 1300} ms), `c11.watch` (return after
 the first delivery iff refresh ≤ 0) -/
